@@ -488,7 +488,7 @@ def fields_of(schema):
 MUTATIONS = ["undefined-ref", "duplicate-name", "missing-name", "malformed-symbol", "duplicate-symbol",
              "enum-default-not-symbol", "default-wrong-type", "decimal-precision-negative", "decimal-precision-non-integer",
              "decimal-scale-negative", "decimal-scale-non-integer", "decimal-scale-above-precision",
-             "decimal-precision-too-large"]
+             "decimal-precision-too-large", "decimal-precision-falsy-non-integer", "decimal-scale-falsy-non-integer"]
 
 
 def wrong_default(rng, g, ns, t):
@@ -611,6 +611,12 @@ def mutate(rng, schema, g, kind):
             n["scale"] = rng.choice([-1, -4])
         elif kind == "decimal-scale-non-integer":
             n["scale"] = rng.choice([0.5, "1", [1], 1.0])
+        elif kind == "decimal-precision-falsy-non-integer":
+            # non-integers that are falsy in Python, and booleans (an int subclass); null counts as "absent"
+            n["precision"] = rng.choice(["", True, False, 0.0, [], {}])
+            n.pop("scale", None)
+        elif kind == "decimal-scale-falsy-non-integer":
+            n["scale"] = rng.choice(["", True, False, 0.0, [], {}])
         elif kind == "decimal-scale-above-precision":
             n["scale"] = n["precision"] + rng.choice([1, 2, 10])
         else:
